@@ -56,6 +56,8 @@ const DESC: usize = 2;
 const DISP: usize = 3;
 const UNKNOWN: usize = 99;
 const NATTR: usize = 4;
+/// atom of `Attribute::Uuid` in the model (only `SelfUuid` reads it)
+const UUID_A: usize = 9;
 
 fn attr_of(a: usize) -> Attribute {
     match a {
@@ -219,7 +221,7 @@ fn to_fc(t: &T) -> Option<FC> {
         T::Or(l) => FC::Or(l.iter().map(to_fc).collect::<Option<Vec<_>>>()?),
         T::And(l) => FC::And(l.iter().map(to_fc).collect::<Option<Vec<_>>>()?),
         T::Not(f) => FC::AndNot(Box::new(to_fc(f)?)),
-        T::SelfU => return None,
+        T::SelfU => FC::SelfUuid,
     })
 }
 
@@ -277,7 +279,7 @@ fn conn_kinds(t: &T, out: &mut BTreeSet<&'static str>) {
 
 type Plain = [Vec<String>; NATTR];
 
-fn plain(t: &T, e: &Plain) -> bool {
+fn plain(t: &T, e: &Plain, uuid: &Uuid) -> bool {
     match t {
         T::Eq(a, _) | T::Cnt(a, _) | T::Pres(a) if *a >= NATTR => false,
         T::Eq(a, v) => e[*a].iter().any(|x| x == v),
@@ -286,10 +288,11 @@ fn plain(t: &T, e: &Plain) -> bool {
         T::Cnt(a, v) if *a == DESC || *a == DISP => e[*a].iter().any(|x| x.to_lowercase().contains(v.to_lowercase().as_str())),
         T::Cnt(a, v) => e[*a].iter().any(|x| x.contains(v.as_str())),
         T::Pres(a) => !e[*a].is_empty(),
-        T::Or(l) => l.iter().any(|x| plain(x, e)),
-        T::And(l) => l.iter().all(|x| plain(x, e)),
-        T::Not(f) => !plain(f, e),
-        T::SelfU => false,
+        T::Or(l) => l.iter().any(|x| plain(x, e, uuid)),
+        T::And(l) => l.iter().all(|x| plain(x, e, uuid)),
+        T::Not(f) => !plain(f, e, uuid),
+        // the internal identity's uuid
+        T::SelfU => *uuid == UUID_SYSTEM,
     }
 }
 
@@ -446,8 +449,7 @@ fn short(u: &Uuid) -> String {
     }
 }
 
-fn model_attrs(classes: &[String], name: &[String], desc: &[String], disp: &[String]) -> String {
-    let mut parts = vec![];
+fn model_attrs(uuid: &Uuid, classes: &[String], name: &[String], desc: &[String], disp: &[String]) -> String {
     let render = |vs: &[String]| {
         let mut r: Vec<String> = vs.iter().map(|s| show_s(s)).collect();
         r.sort();
@@ -456,16 +458,14 @@ fn model_attrs(classes: &[String], name: &[String], desc: &[String], disp: &[Str
     let cl: Vec<String> = classes.iter().filter(|c| CLASS_POOL.contains(&c.as_str())).cloned().collect();
     let desc_l: Vec<String> = desc.iter().map(|s| s.to_lowercase()).collect();
     let disp_l: Vec<String> = disp.iter().map(|s| s.to_lowercase()).collect();
+    let mut parts: Vec<(usize, String)> = vec![(UUID_A, format!("n{}", nat_of(uuid)))];
     for (a, vs) in [(CLASS, &cl[..]), (NAME, name), (DESC, desc), (DISP, disp), (DESC + 10, &desc_l[..]), (DISP + 10, &disp_l[..])] {
         if !vs.is_empty() {
-            parts.push(format!("{a}={}", render(vs)));
+            parts.push((a, render(vs)));
         }
     }
-    if parts.is_empty() {
-        "-".into()
-    } else {
-        parts.join(",")
-    }
+    parts.sort_by_key(|x| x.0);
+    parts.into_iter().map(|(a, v)| format!("{a}={v}")).collect::<Vec<_>>().join(",")
 }
 
 /// the model's request for an operation
@@ -486,7 +486,7 @@ fn model_req(op: &Op) -> String {
                     format!(
                         "{}/{}/{}",
                         nat_of(&uuid_of(e.id)),
-                        model_attrs(&cl, &[e.name.clone()], &e.desc.clone().into_iter().collect::<Vec<_>>(), &e.disp.clone().into_iter().collect::<Vec<_>>()),
+                        model_attrs(&uuid_of(e.id), &cl, &[e.name.clone()], &e.desc.clone().into_iter().collect::<Vec<_>>(), &e.disp.clone().into_iter().collect::<Vec<_>>()),
                         e.filt.as_ref().map(show_t).unwrap_or_else(|| "-".into())
                     )
                 })
@@ -663,7 +663,7 @@ fn observe(qs: &QueryServer, rt: &tokio::runtime::Runtime) -> Result<Observed, S
         let real = to_fc(t).and_then(|fc| Filter::new(fc).validate(r.get_schema()).ok()).and_then(|f| f.resolve(&ident, None, None).ok());
         let mut expected: BTreeSet<Uuid> = BTreeSet::new();
         for (ei, e) in obs.ents.iter().enumerate() {
-            let m = plain(t, &e.plain);
+            let m = plain(t, &e.plain, &e.uuid);
             if let Some(rf) = &real {
                 if all.iter().find(|x| x.get_uuid() == e.uuid).map(|x| x.entry_match_no_index(rf)) != Some(m) {
                     obs.discs.push(Disc { group: g.uuid, entry: e.uuid, kind: "matcher" });
@@ -694,7 +694,7 @@ fn observe(qs: &QueryServer, rt: &tokio::runtime::Runtime) -> Result<Observed, S
                 "{}/{}/{}/{}/{}/{}",
                 nat_of(&e.uuid),
                 if e.live { "L" } else { "R" },
-                model_attrs(&e.plain[CLASS], &e.plain[NAME], &e.plain[DESC], &e.plain[DISP]),
+                model_attrs(&e.uuid, &e.plain[CLASS], &e.plain[NAME], &e.plain[DESC], &e.plain[DISP]),
                 fmt_uuids(&e.dynm),
                 fmt_uuids(&e.mem),
                 fmt_uuids(&e.rdmo)
@@ -710,8 +710,8 @@ fn layout(qs: &QueryServer, rt: &tokio::runtime::Runtime) -> Result<String, Stri
     let r = rt.block_on(qs.read()).map_err(|e| format!("read:{e:?}"))?;
     let attrs = r.get_schema().get_attributes();
     let mut parts = vec![];
-    for a in 0..NATTR {
-        let sa = attrs.get(&attr_of(a)).ok_or(format!("no schema attribute {a}"))?;
+    for a in (0..NATTR).chain([UUID_A]) {
+        let sa = attrs.get(&if a == UUID_A { Attribute::Uuid } else { attr_of(a) }).ok_or(format!("no schema attribute {a}"))?;
         if sa.indexed || sa.unique {
             for it in sa.syntax.index_types() {
                 parts.push(format!(
@@ -737,7 +737,7 @@ fn init_req(obs: &Observed, layout: &str) -> String {
             format!(
                 "{}/{}/{}/{}/{}/{}",
                 nat_of(&e.uuid),
-                model_attrs(&e.plain[CLASS], &e.plain[NAME], &e.plain[DESC], &e.plain[DISP]),
+                model_attrs(&e.uuid, &e.plain[CLASS], &e.plain[NAME], &e.plain[DESC], &e.plain[DISP]),
                 match &e.filt {
                     Some(Ok(t)) => show_t(t),
                     _ => "-".into(),
@@ -749,11 +749,12 @@ fn init_req(obs: &Observed, layout: &str) -> String {
         })
         .collect();
     format!(
-        "init | {CLASS} {NAME} 9 {} | {} {} {} | {layout} | {}",
+        "init | {CLASS} {NAME} {UUID_A} {} | {} {} {} n{} | {layout} | {}",
         track_lo(),
         show_s("recycled"),
         show_s("tombstone"),
         show_s("dyngroup"),
+        nat_of(&UUID_SYSTEM),
         ents.join(";")
     )
 }
@@ -783,7 +784,10 @@ struct Outcome {
     max_members: usize,
     proper_subset: bool,
     builtin_changed: bool,
-    unsafe_filters: usize,
+    /// the model says the start state and every committed operation so far are in the scope of
+    /// `dyn_exact_partial` (`initB`, `opSafeB`, `noDynB`)
+    covered_all: bool,
+    covered_ops: usize,
     requests: u64,
     fatal: Option<String>,
 }
@@ -820,6 +824,17 @@ fn run_history(driver_path: &str, ops: &[Op], stop_at_first_oracle: bool) -> Out
         out.fatal = Some(format!("model init: {reply}"));
         return out;
     }
+    if !reply.ends_with(" 1") {
+        // the freshly migrated server must be a start state the theorem covers
+        out.events.push(Event {
+            kind: "impl-vs-model",
+            class: "initial-state-out-of-scope".into(),
+            at: 0,
+            expected: "initB = 1 on the freshly migrated server".into(),
+            observed: reply.clone(),
+        });
+    }
+    out.covered_all = reply.ends_with(" 1");
     let mut in_step = true;
     // the initial state must satisfy the property and agree with the model
     let mut prev_discs: BTreeSet<Disc> = obs0.discs.iter().cloned().collect();
@@ -878,6 +893,7 @@ fn run_history(driver_path: &str, ops: &[Op], stop_at_first_oracle: bool) -> Out
                     observed: format!("{ires} {}", obs.view),
                 });
                 in_step = false; // the two sides are out of step; the oracle goes on alone
+                out.covered_all = false;
             } else {
                 let spec = drv.ask("exact");
                 if spec != obs.expected {
@@ -888,6 +904,34 @@ fn run_history(driver_path: &str, ops: &[Op], stop_at_first_oracle: bool) -> Out
                         expected: format!("specification: {spec}"),
                         observed: format!("oracle: {}", obs.expected),
                     });
+                }
+                // the theorem's scope test and the property test, evaluated by the model on this history
+                let scope = drv.ask("scope");
+                let (covered, exact) = scope.split_once(' ').unwrap_or(("0", "0"));
+                let oracle_clean = !obs.discs.iter().any(|d| d.kind != "matcher");
+                if (exact == "1") != oracle_clean {
+                    out.events.push(Event {
+                        kind: "impl-vs-model",
+                        class: "oracle-vs-spec".into(),
+                        at: k,
+                        expected: format!("exactB = {exact}"),
+                        observed: format!("oracle discrepancies: {:?}", obs.discs),
+                    });
+                }
+                if covered == "1" {
+                    out.covered_ops += 1;
+                    if !oracle_clean {
+                        // `dyn_exact_partial` says this cannot happen while model = implementation
+                        out.events.push(Event {
+                            kind: "impl-vs-model",
+                            class: "in-scope-but-inexact".into(),
+                            at: k,
+                            expected: "a history in the scope of dyn_exact_partial is exact".into(),
+                            observed: format!("{:?}", obs.discs),
+                        });
+                    }
+                } else {
+                    out.covered_all = false;
                 }
             }
         }
@@ -1286,6 +1330,116 @@ fn corpus() -> Vec<(&'static str, Vec<&'static str>)> {
     ]
 }
 
+/// A fixed walk through every transition the property turns on, for one filter `f` and a second
+/// filter `g`: candidates of every kind created before and after the group; each candidate's
+/// description moved through every pool value (into / out of / within / outside the filter);
+/// displayname and name changes; the group's own attribute changed (full re-evaluation); the
+/// filter replaced and restored; each candidate deleted and revived; the group deleted, candidates
+/// changed meanwhile, the group revived.
+fn systematic(f: &T, g: &T) -> Vec<Op> {
+    let e = |id: u8, kind: char, desc: Option<&str>, disp: Option<&str>| NewEnt {
+        id,
+        kind,
+        name: name_of(id, 0),
+        desc: desc.map(|s| s.to_string()),
+        disp: disp.map(|s| s.to_string()),
+        filt: None,
+    };
+    let mut ops = vec![
+        Op::Create(vec![e(1, 'g', Some("red"), None), e(2, 'p', None, Some("ann"))]),
+        Op::Create(vec![NewEnt { id: 20, kind: 'd', name: name_of(20, 0), desc: None, disp: None, filt: Some(f.clone()) }]),
+        Op::Create(vec![e(3, 's', Some("green"), Some("bob")), e(4, 'g', None, None)]),
+    ];
+    for d in DESCS {
+        ops.push(Op::Mod(vec![1, 3], DESC, Some(d.to_string())));
+        ops.push(Op::Mod(vec![2, 4], DESC, Some(d.to_string())));
+        ops.push(Op::Mod(vec![1], DESC, None));
+    }
+    for d in DISPS {
+        ops.push(Op::Mod(vec![2, 3], DISP, Some(d.to_string())));
+    }
+    ops.push(Op::Mod(vec![1], NAME, Some(name_of(1, 1))));
+    ops.push(Op::Mod(vec![20], DESC, Some("blue".into())));
+    ops.push(Op::Filt(vec![20], g.clone()));
+    ops.push(Op::Mod(vec![1, 2, 3, 4], DESC, Some("redgreen".into())));
+    ops.push(Op::Filt(vec![20], f.clone()));
+    for i in 1..=4u8 {
+        ops.push(Op::Del(vec![i]));
+        ops.push(Op::Rev(i));
+    }
+    ops.push(Op::Del(vec![1, 2]));
+    ops.push(Op::Filt(vec![20], g.clone()));
+    ops.push(Op::Rev(1));
+    ops.push(Op::Del(vec![20]));
+    ops.push(Op::Mod(vec![3, 4], DESC, Some("bluered".into())));
+    ops.push(Op::Rev(2));
+    ops.push(Op::Rev(20));
+    ops
+}
+
+fn systematic_filters() -> Vec<T> {
+    let nd = |t: T| no_dyn(t);
+    let eq = |a: usize, v: &str| T::Eq(a, v.to_string());
+    let cnt = |a: usize, v: &str| T::Cnt(a, v.to_string());
+    vec![
+        nd(eq(DESC, "red")),
+        nd(cnt(DESC, "red")),
+        nd(T::Or(vec![eq(DESC, "green"), eq(DISP, "ann")])),
+        nd(T::And(vec![eq(CLASS, "group"), T::Not(Box::new(cnt(DESC, "blu")))])),
+        nd(T::And(vec![T::Pres(DISP), T::Not(Box::new(eq(CLASS, "person")))])),
+        nd(T::And(vec![eq(CLASS, "account"), T::Or(vec![cnt(DISP, "bob"), T::Pres(DESC)])])),
+        nd(T::Or(vec![T::And(vec![T::Pres(DESC), T::Not(Box::new(cnt(DESC, "e")))]), cnt(NAME, "b01")])),
+        nd(T::And(vec![T::Pres(CLASS), T::Not(Box::new(eq(CLASS, "recycled"))), T::Not(Box::new(T::Pres(DESC)))])),
+        nd(eq(CLASS, "recycled")),
+        nd(T::And(vec![T::Or(vec![eq(DESC, "x"), eq(DESC, "bluered")]), T::Or(vec![eq(CLASS, "group"), eq(CLASS, "service_account")])])),
+    ]
+}
+
+/// operations the server must refuse (or ignore) without touching any dyngroup: unresolvable and
+/// invalid filters, duplicate uuids, filter on a non-dyngroup, dyngroup without filter, targets that
+/// do not exist, revive of a live entry
+fn malformed() -> Vec<Vec<&'static str>> {
+    vec![
+        vec![
+            "c 1 g c18a01 red - - ;; 2 p c18a02 - ann -",
+            "c 20 d c18a20 - - (self)",
+            "c 20 d c18a20 - - (and (eq 2 s114.101.100) (self))",
+            "c 20 d c18a20 - - (eq 99 s120)",
+            "c 20 d c18a20 - - (or (pres 99) (eq 2 s114.101.100))",
+            "c 20 d c18a20 - - (eq 2 s114.101.100)",
+            "c 20 d c18b20 - - (eq 2 s114.101.100)",
+            "f 20 (self)",
+            "f 20 (cnt 99 s120)",
+            "f 1 (eq 2 s114.101.100)",
+            "c 21 d c18a21 - - -",
+            "m 7 2 red",
+            "d 7",
+            "r 7",
+            "r 1",
+            "f 20 (and)",
+            "c 3 g c18a03 red - -",
+            "f 20 (or)",
+            "f 20 (and (or) (eq 2 s114.101.100))",
+            "d 1,7",
+            "r 1",
+        ],
+        vec![
+            "c 20 d c18a20 - - (and)",
+            "c 1 g c18a01 red - - ;; 1 g c18b01 red - -",
+            "c 1 g c18a01 red - -",
+            "c 2 g c18a02 red - - ;; 21 d c18a21 - - (self)",
+            "c 2 g c18a02 blue - -",
+            "d 20",
+            "f 20 (eq 2 s114.101.100)",
+            "c 3 g c18a03 red - -",
+            "r 20",
+            "d 1,2,3,20",
+            "r 20",
+            "r 2",
+        ],
+    ]
+}
+
 // ---------------------------------------------------------------------------------------------
 // main
 
@@ -1299,6 +1453,9 @@ fn history_json(ops: &[Op]) -> J {
 }
 
 fn main() {
+    if std::env::var_os("RUST_LOG").is_none() {
+        std::env::set_var("RUST_LOG", "off");
+    }
     let args = Args::parse();
     let watchdog = StdDuration::from_secs(120);
     let mut rep = Report::new(
@@ -1321,7 +1478,9 @@ fn main() {
                 expected: "the history finishes".into(),
                 observed: "watchdog".into(),
             }),
-            Some(out) => report_case(&mut rep, &args, "replay", &ops, &out, watchdog, &mut BTreeMap::new()),
+            Some(out) => {
+                report_case(&mut rep, &args, "replay", &ops, &out, watchdog, &mut BTreeMap::new());
+            }
         }
         rep.case(None);
         rep.write(&args.out);
@@ -1333,12 +1492,47 @@ fn main() {
     for (label, ops) in corpus() {
         cases.push(Case { label: format!("corpus:{label}"), ops: ops.iter().map(|s| Op::parse(s)).collect() });
     }
-    let n_random = args.cases(90, 2400);
+    // committed witnesses (corpus/C18/*.json, same format as a replay file, plus `expect`)
+    let mut expect_of: BTreeMap<String, String> = BTreeMap::new();
+    let dir = ["corpus/C18", "/verif/corpus/C18"].iter().find(|d| std::path::Path::new(d).is_dir()).copied();
+    let mut files: Vec<std::path::PathBuf> = dir
+        .and_then(|d| std::fs::read_dir(d).ok())
+        .map(|d| d.filter_map(|e| e.ok()).map(|e| e.path()).filter(|p| p.extension().map(|x| x == "json").unwrap_or(false)).collect())
+        .unwrap_or_default();
+    files.sort();
+    if files.is_empty() {
+        rep.fail(Failure {
+            kind: "impl-vs-model".into(),
+            class: "harness-setup".into(),
+            input: json!({}),
+            expected: "corpus/C18/*.json present".into(),
+            observed: "no corpus file found".into(),
+        });
+    }
+    for f in files {
+        let v: J = serde_json::from_str(&std::fs::read_to_string(&f).expect("corpus file")).expect("corpus json");
+        let ops: Vec<Op> = v["input"]["ops"].as_array().expect("ops").iter().map(|s| Op::parse(s.as_str().unwrap())).collect();
+        let label = format!("corpusfile:{}", f.file_stem().unwrap().to_string_lossy());
+        expect_of.insert(label.clone(), v["expect"].as_str().unwrap_or("pass").to_string());
+        cases.push(Case { label, ops });
+    }
+    for (i, ops) in malformed().into_iter().enumerate() {
+        cases.push(Case { label: format!("malformed:{i}"), ops: ops.iter().map(|s| Op::parse(s)).collect() });
+    }
+    let sf = systematic_filters();
+    let n_sys = if args.thorough() { sf.len() } else { 3 };
+    for i in 0..n_sys {
+        // the quick tier rotates through the pool with the seed
+        let k = (i + (args.seed as usize) * n_sys) % sf.len();
+        cases.push(Case { label: format!("systematic:{k}"), ops: systematic(&sf[k], &sf[(k + 1) % sf.len()]) });
+    }
+    let n_random = args.cases(72, 1200);
     for i in 0..n_random {
         let mut rng = Rng::for_case(args.seed, i);
-        let flavor = match i % 6 {
-            0 | 1 | 2 => Flavor::Clean,
-            3 | 4 => Flavor::Guarded,
+        // while a failing input is being searched for (budget > 1) every flavour gets equal weight
+        let flavor = match (i % 6, args.budget > 1) {
+            (0 | 1 | 2, false) | (0 | 1, true) => Flavor::Clean,
+            (3 | 4, false) | (2 | 3, true) => Flavor::Guarded,
             _ => Flavor::Free,
         };
         let len = rng.range(8, 16) as usize;
@@ -1371,6 +1565,7 @@ fn main() {
         let _ = h.join();
     }
     let results = std::mem::take(&mut *results.lock().unwrap());
+    let t_run = t0.elapsed().as_secs_f64();
     let mut shrunk_per_class: BTreeMap<String, u32> = BTreeMap::new();
     for (i, c) in cases.iter().enumerate() {
         rep.count(&format!("stream:{}", c.label.split(':').next().unwrap()));
@@ -1385,10 +1580,23 @@ fn main() {
                 });
                 rep.case(None);
             }
-            Some(out) => report_case(&mut rep, &args, &c.label, &c.ops, &out, watchdog, &mut shrunk_per_class),
+            Some(out) => {
+                let got = report_case(&mut rep, &args, &c.label, &c.ops, &out, watchdog, &mut shrunk_per_class);
+                if let Some(exp) = expect_of.get(&c.label) {
+                    match (&got, exp.as_str()) {
+                        (None, "pass") => rep.count("corpus-regression-pass"),
+                        (None, _) => {
+                            rep.note(format!("{}: the recorded finding `{exp}` no longer reproduces (repaired?)", c.label));
+                            rep.count("corpus-finding-not-reproduced");
+                        }
+                        (Some(g), e) if g == e => rep.count("corpus-finding-reproduced"),
+                        (Some(g), e) => rep.note(format!("{}: recorded as `{e}`, now classified `{g}`", c.label)),
+                    }
+                }
+            }
         }
     }
-    rep.note(format!("{} histories on {lanes} lanes in {:.1} s", cases.len(), t0.elapsed().as_secs_f64()));
+    rep.note(format!("{} histories on {lanes} lanes in {t_run:.1} s, classification and minimisation {:.1} s", cases.len(), t0.elapsed().as_secs_f64() - t_run));
     rep.write(&args.out);
     println!(
         "c18 dyngroup: {} histories, {} non-trivial, {} failure(s), {:.1} s",
@@ -1400,12 +1608,13 @@ fn main() {
     std::process::exit(0);
 }
 
-fn report_case(rep: &mut Report, args: &Args, label: &str, ops: &[Op], out: &Outcome, watchdog: StdDuration, shrunk: &mut BTreeMap<String, u32>) {
+/// Returns the class of the history's first oracle failure, if any.
+fn report_case(rep: &mut Report, args: &Args, label: &str, ops: &[Op], out: &Outcome, watchdog: StdDuration, shrunk: &mut BTreeMap<String, u32>) -> Option<String> {
     rep.model_requests += out.requests;
     if let Some(f) = &out.fatal {
         rep.fail(Failure { kind: "impl-vs-model".into(), class: "harness".into(), input: history_json(ops), expected: "the case runs".into(), observed: f.clone() });
         rep.case(None);
-        return;
+        return None;
     }
     for (k, n) in &out.op_kinds {
         rep.count_n(&format!("op:{k}"), *n);
@@ -1414,6 +1623,10 @@ fn report_case(rep: &mut Report, args: &Args, label: &str, ops: &[Op], out: &Out
     rep.count_n("ops-err", out.err_ops as u64);
     if out.builtin_changed {
         rep.count("builtin-dyngroup-changed");
+    }
+    rep.count_n("ops-in-theorem-scope", out.covered_ops as u64);
+    if out.covered_all {
+        rep.count("histories-in-theorem-scope");
     }
     let nontrivial = out.grew >= 1 && out.shrank >= 1 && out.proper_subset;
     let key = ops.iter().map(|o| o.token()).collect::<Vec<_>>().join("|");
@@ -1439,7 +1652,7 @@ fn report_case(rep: &mut Report, args: &Args, label: &str, ops: &[Op], out: &Out
         let n = shrunk.entry(format!("oracle:{class0}")).or_insert(0);
         *n += 1;
         rep.count(&format!("oracle-failure:{class0}"));
-        if *n <= 2 || class0 == "unclassified" && *n <= 6 {
+        if *n <= 1 || class0 == "unclassified" && *n <= 4 {
             // minimise: drop operations while an oracle failure of the same class remains
             let dp = args.driver.clone();
             let min = shrink_list(prefix.clone(), |cand| {
@@ -1456,5 +1669,7 @@ fn report_case(rep: &mut Report, args: &Args, label: &str, ops: &[Op], out: &Out
             let class = if oracle_events(&fin).is_empty() { class0.clone() } else { classify(&args.driver, &min, &fin, watchdog) };
             rep.fail(Failure { kind: "impl-vs-oracle".into(), class, input: history_json(&min), expected: ev.expected, observed: ev.observed });
         }
+        return Some(class0);
     }
+    None
 }
